@@ -255,6 +255,80 @@ Example C01_WF_needed_tracked_kind_known :
   mon_C01 sc c0' (run sc c0') = true.
 Proof. vm_compute. repeat split; reflexivity. Qed.
 
+(* ---- the APIService fallback ------------------------------------------------------------------------
+   Object 0 is a plain object, object 1 an apiregistration.k8s.io APIService (KApiSvc); first apply with the
+   server-side option on.  The apply PATCH of the APIService dies with an HTTP/2 stream error (FStream 1 0) and
+   ApplyTask applies it client-side instead: GET (NotFound), POST.  The outcome of that second attempt is the
+   outcome of the apply: exactly one apply result event for object 1. *)
+Definition as_univ : list uinfo := [mkU KPlain None None; mkU KApiSvc None None].
+Definition as_opts (d : dry) (ssa : bool) : opts :=
+  mkO false true PMustMatch d VSkipInvalid ssa true true false PropBackground false.
+Definition as_sc (u : list uinfo) (d : dry) (ssa : bool) (f : list faddr) : scenario :=
+  mkSc u None [mkL 0 [] false false false 1; mkL 1 [] false false false 1] (as_opts d ssa)
+       (mkE f [mkW [mkS 0 SCurrent true 1%N 2%Z; mkS 1 SCurrent true 2%N 2%Z] WTimeout] CNever None).
+Definition as_c0 : cluster := mkCl [] None 1%N.
+Definition as_results (sc : scenario) : list ast :=
+  flat_map (fun e => match e with EApply _ 1 s => [s] | _ => [] end) (events (out_trace (run sc as_c0))).
+Definition as_obj0 : cobj := mkC 0 1%N OOurs false [] false 1 None.
+
+(* the fallback fires and succeeds: the object it created is live, annotated, tracked (the rejected PATCH is
+   logged while only object 0 is managed, the POST with both: the two snapshots of one apply differ) *)
+Example C01_nonvacuous_apiservice_fallback_succeeds :
+  let sc := as_sc as_univ DNone true [FStream 1 0] in
+  WF sc as_c0 /\ kf_free sc as_c0 /\
+  reqs (out_trace (run sc as_c0)) =
+    [(RInvCreate [0; 1], true); (RPatch 0 true false, true); (RPatch 1 true false, false); (RCreate 1 false, true)] /\
+  In (IReq (RPatch 1 true false) false [0] (Some [0; 1])) (out_trace (run sc as_c0)) /\
+  In (IReq (RCreate 1 false) true [0; 1] (Some [0; 1])) (out_trace (run sc as_c0)) /\
+  as_results sc = [AOk] /\
+  out_final (run sc as_c0) =
+    mkCl [as_obj0; mkC 1 2%N OOurs false [] false 1 (Some (mkLA OOurs false [] false 1))] (Some [0; 1]) 3%N /\
+  mon_C01 sc as_c0 (run sc as_c0) = true.
+Proof.
+  cbv zeta. split; [apply wf_b_spec; vm_compute; reflexivity|].
+  split; [apply kf_freeb_sound; vm_compute; reflexivity|].
+  split; [vm_compute; reflexivity|]. split; [vm_compute; tauto|]. split; [vm_compute; tauto|].
+  split; [vm_compute; reflexivity|]. split; vm_compute; reflexivity.
+Qed.
+
+(* the fallback fires and fails (its POST is rejected; its read is rejected): the apply failed, nothing was
+   created, the final inventory drops the id that the inventory-add task had merged in *)
+Example C01_nonvacuous_apiservice_fallback_fails :
+  let sc := as_sc as_univ DNone true [FStream 1 0; FApply 1] in
+  let sc' := as_sc as_univ DNone true [FStream 1 0; FGet 1 1] in
+  WF sc as_c0 /\ kf_free sc as_c0 /\ WF sc' as_c0 /\ kf_free sc' as_c0 /\
+  reqs (out_trace (run sc as_c0)) =
+    [(RInvCreate [0; 1], true); (RPatch 0 true false, true); (RPatch 1 true false, false); (RCreate 1 false, false);
+     (RInvUpdate [0], true)] /\
+  reqs (out_trace (run sc' as_c0)) =
+    [(RInvCreate [0; 1], true); (RPatch 0 true false, true); (RPatch 1 true false, false); (RInvUpdate [0], true)] /\
+  as_results sc = [AFail] /\ as_results sc' = [AFail] /\
+  out_final (run sc as_c0) = mkCl [as_obj0] (Some [0]) 2%N /\ out_final (run sc' as_c0) = mkCl [as_obj0] (Some [0]) 2%N /\
+  mon_C01 sc as_c0 (run sc as_c0) = true /\ mon_C01 sc' as_c0 (run sc' as_c0) = true.
+Proof.
+  cbv zeta. split; [apply wf_b_spec; vm_compute; reflexivity|].
+  split; [apply kf_freeb_sound; vm_compute; reflexivity|].
+  split; [apply wf_b_spec; vm_compute; reflexivity|].
+  split; [apply kf_freeb_sound; vm_compute; reflexivity|].
+  repeat split; vm_compute; reflexivity.
+Qed.
+
+(* no fallback: for another kind, or without the server-side option (server dry-run sends an apply PATCH
+   all the same), the stream error is a failure like any other; with client-side apply the address matches
+   no request.  Under server dry-run WITH the option the second attempt is another dry-run apply PATCH. *)
+Example C01_nonvacuous_apiservice_no_fallback :
+  reqs (out_trace (run (as_sc [mkU KPlain None None; mkU KPlain None None] DNone true [FStream 1 0]) as_c0)) =
+    [(RInvCreate [0; 1], true); (RPatch 0 true false, true); (RPatch 1 true false, false); (RInvUpdate [0], true)] /\
+  reqs (out_trace (run (as_sc as_univ DServer false [FStream 1 0]) as_c0)) =
+    [(RPatch 0 true true, true); (RPatch 1 true true, false)] /\
+  reqs (out_trace (run (as_sc as_univ DNone false [FStream 1 0]) as_c0)) =
+    [(RInvCreate [0; 1], true); (RCreate 0 false, true); (RCreate 1 false, true)] /\
+  reqs (out_trace (run (as_sc as_univ DServer true [FStream 1 0]) as_c0)) =
+    [(RPatch 0 true true, true); (RPatch 1 true true, false); (RPatch 1 true true, true)] /\
+  as_results (as_sc as_univ DServer true [FStream 1 0]) = [AOk] /\
+  as_results (as_sc as_univ DServer true [FStream 1 0; FStream 1 1]) = [AFail].
+Proof. repeat split; vm_compute; reflexivity. Qed.
+
 Print Assumptions C01_no_orphans_partial.
 Print Assumptions C01_inventory_deleted_only_when_empty_partial.
 Print Assumptions C01_monitor_partial.
